@@ -867,7 +867,9 @@ def run(ctx, rep):
     rep.assume("children of a construct are themselves words of this kind (induction over the AST); Block::compile concatenates the code of its statements")
     rep.assume("every CompiledItem becomes exactly one instruction (seal_compiled_items maps items 1:1)")
     rep.assume("block lengths fit the machine integer types (no overflow in the offset arithmetic)")
-    rep.assume("not decided: operand-stack shape, frames across `ret`, the values conditions take")
+    rep.assume("not decided: frames across `ret`, the values conditions take, the kinds of the operands (C02); the operand-stack clause takes the hypothesis "
+               "`code(expression): empty stack -> one value` for the children and decides the step for the shapes it lists (Index / DotChain code, unary minus and "
+               "the argument re-load loop of a call are not followed)")
     generators(F, rep)
     short_circuit(F, rep)
     scopes_since_loop(F, rep)
@@ -876,6 +878,10 @@ def run(ctx, rep):
     returns(F, rep)
     interpreter_loop(F, rep)
     children_code_is_not_edited(F, rep)
+    # "each instruction finds the operand-stack shape it requires": handler stack effects x emitted words (props/_opstack.py)
+    from props import _opstack
+    nd = _opstack.run_clause(F, rep, P + ".operands")
+    rep.floor(P + ".operands generator shapes decided", nd, 60)
 
 
 
